@@ -27,26 +27,12 @@ Definition C19_full_statement (fixsub fixsel : bool) : Prop :=
   (forall use, use_C_ieee754 fixsel 0 true true true true true use = (1, use)).
 
 Theorem C19_full_repaired : C19_full_statement true true.
-Proof.
-  intros ilog2f ilog2d pow2 pow2f H32 H64. split; [| split; [| split; [| split]]].
-  - intros; apply (any_mode_encode32 ilog2f pow2 pow2f H32); assumption.
-  - intros; apply (any_mode_encode64 ilog2d pow2 pow2 H64); assumption.
-  - intros; apply (any_mode_decode32 ilog2f pow2 pow2f H32); assumption.
-  - intros; apply (any_mode_decode64 ilog2d pow2 pow2 H64); assumption.
-  - intros use. exact (proj2 (selection_fixed use)).
-Qed.
+Proof. exact full_repaired. Qed.
 Print Assumptions C19_full_repaired.
 
 (* the unchanged tree violates it twice: the subnormal encoder and the selection of the native path *)
 Theorem C19_full_cur_refuted : ~ C19_full_statement false false /\ ~ C19_full_statement false true /\ ~ C19_full_statement true false.
-Proof.
-  assert (Hsub : forall fixsel, ~ C19_full_statement false fixsel).
-  { intros fixsel H. destruct (H _ _ _ _ (libm_exact_ok fmt32 fmt32_ok) (libm_exact_ok fmt64 fmt64_ok)) as (He & _).
-    specialize (He false 1 ltac:(split; [discriminate | reflexivity]) eq_refl). vm_compute in He. discriminate. }
-  split; [apply Hsub | split; [apply Hsub |]].
-  intros H. destruct (H _ _ _ _ (libm_exact_ok fmt32 fmt32_ok) (libm_exact_ok fmt64 fmt64_ok)) as (_ & _ & _ & _ & Hs).
-  specialize (Hs true). discriminate.
-Qed.
+Proof. exact full_cur_refuted. Qed.
 Print Assumptions C19_full_cur_refuted.
 
 (* ------------------------------------------------------------------------------------------------------------------ decoder *)
@@ -56,7 +42,7 @@ Theorem C19_decode :
    forall bits, 0 <= bits < 2 ^ 32 -> soft_decode pow2 pow2s fmt32 bits = Some (fval_of_b32 (b32_of_bits bits))) /\
   (forall ilog2 pow2 pow2s, libm_ok fmt64 ilog2 pow2 pow2s ->
    forall bits, 0 <= bits < 2 ^ 64 -> soft_decode pow2 pow2s fmt64 bits = Some (fval_of_b64 (b64_of_bits bits))).
-Proof. split; [exact decode32 | exact decode64]. Qed.
+Proof. exact decode_both. Qed.
 Print Assumptions C19_decode.
 
 (* ------------------------------------------------------------------------------------------------------------------ encoder *)
@@ -67,7 +53,7 @@ Theorem C19_encode :
    forall x : binary32, is_nan _ _ x = false -> soft_encode ilog2 pow2 fmt32 true (fval_of_b32 x) = Some (bits_of_b32 x)) /\
   (forall ilog2 pow2 pow2s, libm_ok fmt64 ilog2 pow2 pow2s ->
    forall x : binary64, is_nan _ _ x = false -> soft_encode ilog2 pow2 fmt64 true (fval_of_b64 x) = Some (bits_of_b64 x)).
-Proof. split; [exact encode32 | exact encode64]. Qed.
+Proof. exact encode_both. Qed.
 Print Assumptions C19_encode.
 
 (* encoder of the unchanged tree: correct except on subnormals whose leading fraction bit is 0 ... *)
@@ -78,7 +64,7 @@ Theorem C19_encode_cur_partial :
   (forall ilog2 pow2 pow2s, libm_ok fmt64 ilog2 pow2 pow2s ->
    forall x : binary64, is_nan _ _ x = false -> not_deep 52 (B2FF _ _ x) ->
    soft_encode ilog2 pow2 fmt64 false (fval_of_b64 x) = Some (bits_of_b64 x)).
-Proof. split; [exact encode32_cur_partial | exact encode64_cur_partial]. Qed.
+Proof. exact encode_cur_partial_both. Qed.
 Print Assumptions C19_encode_cur_partial.
 (* ... and wrong on every one of those: the fraction comes out shifted left until its leading 1 is the top fraction bit *)
 Theorem C19_encode32_cur_refuted : forall ilog2 pow2 pow2s, libm_ok fmt32 ilog2 pow2 pow2s ->
@@ -121,7 +107,7 @@ Theorem C19_roundtrip :
   (forall ilog2 pow2 pow2s, libm_ok fmt64 ilog2 pow2 pow2s ->
    forall b, 0 <= b < 2 ^ 64 -> is_nan _ _ (b64_of_bits b) = false ->
    exists v, soft_decode pow2 pow2s fmt64 b = Some v /\ soft_encode ilog2 pow2 fmt64 true v = Some b).
-Proof. split; [exact roundtrip_value32 | split; [exact roundtrip_value64 | split; [exact roundtrip_bits32 | exact roundtrip_bits64]]]. Qed.
+Proof. exact roundtrip_all. Qed.
 Print Assumptions C19_roundtrip.
 
 (* ------------------------------------------------------------------------------------------------------------------ native path, selection *)
@@ -163,14 +149,14 @@ Print Assumptions C19_layout_encode.
 Theorem C19_layout_bijective : forall f, fmt_ok f ->
   (forall bits, 0 <= bits < 2 ^ (fb f + eb f + 1) -> spec_decode f bits <> FNan -> spec_encode f (spec_decode f bits) = bits) /\
   (forall x, valid_fval f x -> spec_decode f (spec_encode f x) = x /\ 0 <= spec_encode f x < 2 ^ (fb f + eb f + 1)).
-Proof. intros f Hf. split; [exact (spec_encode_decode f Hf) | exact (spec_decode_encode f Hf)]. Qed.
+Proof. exact layout_bijective. Qed.
 Print Assumptions C19_layout_bijective.
 Theorem C19_layout_is_flocq :
   (forall bits, 0 <= bits -> spec_decode fmt32 bits = fval_of_b32 (b32_of_bits bits)) /\
   (forall bits, 0 <= bits -> spec_decode fmt64 bits = fval_of_b64 (b64_of_bits bits)) /\
   (forall x : binary32, is_nan _ _ x = false -> spec_encode fmt32 (fval_of_b32 x) = bits_of_b32 x) /\
   (forall x : binary64, is_nan _ _ x = false -> spec_encode fmt64 (fval_of_b64 x) = bits_of_b64 x).
-Proof. repeat split; [exact b32_bridge | exact b64_bridge | exact b32_bridge_enc | exact b64_bridge_enc]. Qed.
+Proof. exact layout_is_flocq. Qed.
 Print Assumptions C19_layout_is_flocq.
 
 (* ------------------------------------------------------------------------------------------------------------------ hypotheses are satisfiable *)
